@@ -166,6 +166,8 @@ def to_scenario(hist, matrices):
             hdrs = []
             if q["cookie"] is not None:
                 hdrs.append([H(b"Cookie"), H(b"kamal-rollout=" + q["cookie"])])
+            for n, v in q.get("xhdrs") or []:      # further client headers the policy must not depend on
+                hdrs.append([H(n), H(v)])
             steps.append({"op": "request", "id": "q%d_%d" % (i, j), "async": True, "host": H(q["host"]), "uri": H(q["uri"]),
                           "tls": q["tls"], "method": q["method"], "headers": hdrs})
         steps.append({"op": "sleep", "ns": PROBE_WINDOW + SEC // 2 + 7, "id": "w%d" % i})
